@@ -7,7 +7,7 @@
    same lists is NOT a theorem here -- it is what the correspondence check of this property tests
    on the real code generator, variant against variant and against the model. *)
 From Coq Require Import List NArith Bool.
-From HV Require Import Dfir.Model Dfir.ModelTick Dfir.ModelFlat Dfir.ModelRealise Dfir.POps Dfir.PRealise Dfir.PFlatCheck Dfir.ModelRewrite Dfir.PFlat Dfir.PRewrite.
+From HV Require Import Dfir.Model Dfir.ModelTick Dfir.ModelFlat Dfir.ModelRealise Dfir.POps Dfir.PRealise Dfir.PFlatCheck Dfir.ModelRewrite Dfir.PFlat Dfir.PRewrite Dfir.PRename.
 Import ListNotations.
 
 Theorem C22_perturbation_operators :
@@ -118,6 +118,20 @@ Theorem C22_splice_preserves : forall K a b P pre post ops1 ops2 h,
   forall id, ~ In id (map n_id K) -> olookup id (w_st w1) = olookup id (w_st w2).
 Proof. exact splice_program. Qed.
 Print Assumptions C22_splice_preserves.
+
+(* names do not matter: for injective renamings rho of the wires and sigma of the operator ids the
+   renamed flat graph gives the same sink outputs, tick counts and panic flag over every history,
+   and the same operator states under sigma.  (A lowered variant is `splice` of its base up to such a
+   renaming: the wire and operator numbers are assigned per program.) *)
+Theorem C22_rename_preserves_run : forall (rho sigma : N -> N),
+  (forall a b, rho a = rho b -> a = b) -> (forall a b, sigma a = sigma b -> a = b) ->
+  forall ns ops h, Forall (fun n => plain_kind (n_kind n)) ns ->
+  let '(w1, obs1) := drive false (flat_prog_n ns ops) h in
+  let '(w2, obs2) := drive false (flat_prog_n (map (rn rho sigma) ns) (rn_ops sigma ops)) h in
+  w_out w1 = w_out w2 /\ obs1 = obs2 /\ w_panic w1 = w_panic w2 /\
+  forall id, olookup (sigma id) (w_st w2) = olookup id (w_st w1).
+Proof. exact rename_preserves_run. Qed.
+Print Assumptions C22_rename_preserves_run.
 
 Example C22_example :
   run_op (op_union 2) [[[VN 1; VN 2]; []]; [[VN 3]; []]] = [[[VN 1; VN 2]]; [[VN 3]]].
